@@ -48,6 +48,13 @@ def gen_world(rng, i, tier):
     w["read"].pop("satisfied", None)
     # /dev/null links inside the tree are symbolic links and would offend the no-symlink rule by themselves:
     # keep them only when that rule is not active so that the enumeration stays single-fault
+    # stale links of the tree generator (a main-file position that cannot be opened) are looked at and checked like files;
+    # here exactly one offender per plan is wanted, so they become empty files (the dangling offender is a variant of its own)
+    for n in w["nodes"]:
+        if n["t"] == "l" and n.get("to") != "/dev/null" and n["p"] != "$ROOT/cur":
+            n["t"] = "f"
+            n["entries"] = []
+            n.pop("to", None)
     if "symlink" in w["rules"]:
         cons = set(consulted_of(w, seen=False))
         for n in w["nodes"]:
